@@ -243,8 +243,38 @@ static PARAMS: &[(usize, u128)] = &[(1, 1), (1, 3), (2, 1), (2, 2), (3, 1), (3, 
 // (bucket count, width) whose year does not divide 2^64 ns, used by the far-future scripts
 static FAR_PARAMS: &[(usize, u128)] = &[(3, 1_000_000_000_000_000_000), (5, 700_000_000_000_000_000)];
 
+/// the script being executed, for the watchdog (a mutated queue may loop forever inside fetch_next / peek_time)
+static CURRENT: std::sync::Mutex<(u64, usize, u128, Vec<Op>)> = std::sync::Mutex::new((0, 0, 0, Vec::new()));
+
+fn set_current(n: usize, t: u128, script: &[Op]) {
+    let mut c = CURRENT.lock().unwrap();
+    c.0 += 1;
+    c.1 = n;
+    c.2 = t;
+    c.3.clear();
+    c.3.extend_from_slice(script);
+}
+
+fn start_watchdog() {
+    std::thread::spawn(|| {
+        let mut last = 0u64;
+        let mut same = 0;
+        loop {
+            std::thread::sleep(std::time::Duration::from_millis(500));
+            let (cnt, n, t, script) = { let c = CURRENT.lock().unwrap(); (c.0, c.1, c.2, c.3.clone()) };
+            if cnt == last && cnt != 0 { same += 1; } else { same = 0; last = cnt; }
+            if same >= 6 {
+                let mm = Mismatch { step: script.len(), kind: "operation-does-not-return", props: "C01 C02 C03 C10 C11", expected: "every operation of the script returns".into(), observed: "no progress for 3 s (non-terminating scan?)".into() };
+                report(n, t, &script, &mm, "watchdog");
+                std::process::exit(3);
+            }
+        }
+    });
+}
+
 fn search(depth: usize, nrandom: usize, seed: u64, filter: &str) -> i32 {
     std::panic::set_hook(Box::new(|_| {}));
+    start_watchdog();
     let mut scripts: u64 = 0;
     let mut other: Option<String> = None; // first mismatch that does not carry the property asked for
     // exhaustive part
@@ -254,6 +284,7 @@ fn search(depth: usize, nrandom: usize, seed: u64, filter: &str) -> i32 {
         while let Some(prefix) = stack.pop() {
             if !prefix.is_empty() {
                 scripts += 1;
+                set_current(n, t, &prefix);
                 if let Err(mm) = run(n, t, &prefix) {
                     if filter.is_empty() || mm.props.contains(filter) {
                         let s = shrink(n, t, prefix.clone(), mm.kind);
@@ -322,6 +353,7 @@ fn search(depth: usize, nrandom: usize, seed: u64, filter: &str) -> i32 {
             if matches!(op, Op::Cancel(_)) { break; } // keep the cheap shadow exact: at most one cancel, at the end
         }
         scripts += 1;
+        set_current(n, t, &script);
         if let Err(mm) = run(n, t, &script) {
             if filter.is_empty() || mm.props.contains(filter) {
                 let sh = shrink(n, t, script.clone(), mm.kind);
